@@ -32,6 +32,19 @@ from ..engine import Query
 from ..lib.periph import VS, in_vsync
 
 PROP = "C51"
+
+# FINDINGS
+#   OPEN (known_findings.json, scenario short_cs_gap; assertions read_value, reg_value, strobe_only_when, strobe_happens):
+#     CS de-asserted for 1-3 cycles coinciding with a state change of SPICommandInterface (the cycle the command completes,
+#     PROCESSING, LATCH_OUTPUT, or the cycle the data word completes) and re-asserted before the FSM looks at CS again:
+#     the de-assertion is missed.  History A: write command to address 1, CS low for 3 cycles right after the last command
+#     bit, next transaction's first 3 bits are shifted in as the data of the aborted command -> spurious write strobe /
+#     register written (strobe_only_when, reg_value, read_value).  History B: CS low for 1 cycle in the cycle after the
+#     last data bit (m.next='STALL' overrides 'IDLE') -> the whole following transaction is ignored in STALL
+#     (strobe_happens, read_value).  With every CS gap >= CS_GAP (4) cycles all assertions hold (viol AND NOT kf unsat).
+#   Proposed fix (not applied): give the `~spi.cs` abort check priority in RECEIVE_COMMAND and SHIFT_DATA (place it last)
+#     and add it to PROCESSING and LATCH_OUTPUT; tests/test_spi.py passes with it and all five assertions then hold
+#     without the scenario exclusion.
 ENCODED = ["luna/gateware/interface/spi.py: SPICommandInterface.elaborate (command/word shifters, FSM)",
            "luna/gateware/interface/spi.py: SPIRegisterInterface (add_register/add_sfr/_elaborate_register, read mux)"]
 LOW_MIN = 5
@@ -48,7 +61,7 @@ ASSUMPTIONS = [
     "sdi, cs (abort points) and the SCK timing within the contract are free in every cycle",
 ]
 BOUNDS = "BMC from reset; (address bits, register bits) = (2,3) [and (3,4) thorough]; free SCK timing to one complete " \
-         "transaction plus the start of the next; restricted layer with a free-running SCK (low 6, high 1) to two/three transactions " \
+         "transaction plus the start of the next; restricted layer with a free-running SCK at the fastest allowed rate (low 5, high 1) to two/three transactions (quick: this layer only) " \
          "(write then read back, abort in between)"
 OUTSIDE = "hosts faster than the stated SCK rate; read strobes; address/register sizes other than the listed ones; " \
           "more than three transactions"
@@ -262,35 +275,54 @@ class SpiRegHarness(Harness):
         return dict(sck=st["sck"], cs=st["cs"], sdi=rng.getrandbits(1), sfr_read=st["sfr"])
 
 
+SCK_PERIOD = LOW_MIN + 1
+
+
 def _sck_pattern(t):
-    # fixed host clock for the restricted layer: low LOW_MIN+... cycles, high 1 cycle (period 7), starting low
-    return 1 if (t % 7) == 6 else 0
+    # free-running host clock for the restricted layer at the fastest rate the contract allows:
+    # low LOW_MIN cycles, high 1 cycle, starting low
+    return 1 if (t % SCK_PERIOD) == SCK_PERIOD - 1 else 0
+
+
+READ = ["read_value"]
+WRITE = ["reg_value", "strobe_only_when", "strobe_happens", "write_data"]
+
+
+def _families(qs, tag, f, K, desc, covers, layer=None, required=True):
+    """read family, write family and the cover twins, each solved in a single process"""
+    kw = dict(timeout=900, split=False, layer=layer, required=required)
+    qs.append(Query(f"bmc_{tag}_read", f, K, asserts=READ, covers=[], desc=desc + " [read-back value]", **kw))
+    qs.append(Query(f"bmc_{tag}_write", f, K, asserts=WRITE, covers=[], desc=desc + " [register update / strobes]", **kw))
+    qs.append(Query(f"cover_{tag}", f, K, asserts=[], covers=covers, desc=desc + " [witnesses]", **kw))
 
 
 def queries(tier):
     qs = []
     quick = tier == "quick"
     f23 = lambda: SpiRegHarness(2, 3)
-    per_bit = LOW_MIN + 1
-    K1 = 6 * per_bit + 10
-    qs.append(Query("bmc_free_a2r3", f23, K1 if quick else K1 + 10, timeout=900,
-                    covers=["read_reg", "read_sfr", "read_default", "read_autoneg", "write_reg", "write_sfr",
-                            "write_other", "abort_in_data", "abort_in_command"],
-                    desc="address 2 bits / register 3 bits: sck timing (within the rate contract), sdi, cs free every cycle; "
-                         "one complete transaction and aborted ones"))
-    K2 = 7 * 6 * 2 + 14
-    qs.append(Query("bmc_fixedsck_a2r3", f23, K2 if quick else K2 + 7 * 7, timeout=900,
-                    layer={"sck": _sck_pattern},
-                    covers=["readback_written", "second_transaction", "abort_in_data"],
-                    desc="layer: free-running SCK (low 6, high 1); cs and sdi free every cycle: two (thorough: three) "
-                         "transactions, write then read back, aborts anywhere"))
+    bits = 6
+    # restricted layer: free-running SCK at the maximum rate, cs (abort points, gaps) and sdi free in every cycle
+    K2 = SCK_PERIOD * bits * 2 + 14
+    _families(qs, "fixedsck_a2r3", f23, K2 if quick else K2 + SCK_PERIOD * (bits + 1),
+              "address 2 bits / register 3 bits; layer: free-running SCK (low 5, high 1); cs and sdi free every cycle: "
+              "two (thorough: three) transactions, write then read back, aborts anywhere",
+              ["readback_written", "second_transaction", "abort_in_data", "abort_in_command", "write_sfr", "read_default",
+               "read_autoneg", "write_other"],
+              layer={"sck": _sck_pattern})
     if not quick:
+        # free layer: SCK timing free within the rate contract
+        K1 = bits * SCK_PERIOD + 20
+        _families(qs, "free_a2r3", f23, K1,
+                  "address 2 bits / register 3 bits: sck timing (within the rate contract), sdi, cs free every cycle; "
+                  "one complete transaction and aborted ones",
+                  ["read_reg", "read_sfr", "read_default", "read_autoneg", "write_reg", "write_sfr", "write_other",
+                   "abort_in_data", "abort_in_command"])
         f34 = lambda: SpiRegHarness(3, 4)
-        qs.append(Query("bmc_fixedsck_a3r4", f34, 7 * 8 * 2 + 14, timeout=900, layer={"sck": _sck_pattern},
-                        covers=["readback_written", "second_transaction", "write_sfr", "read_default"],
-                        desc="address 3 bits / register 4 bits; layer: free-running SCK; cs and sdi free: two transactions"))
-        qs.append(Query("bmc_free_a3r4", f34, 8 * per_bit + 10, timeout=900, required=False,
-                        covers=["read_reg", "write_reg"],
-                        desc="address 3 bits / register 4 bits: everything free within the contract; one transaction"))
-    qs.append(Query("cosim_a2r3", f23, 0, kind="cosim", cosim_cycles=400 if quick else 3000))
+        _families(qs, "fixedsck_a3r4", f34, SCK_PERIOD * 8 * 2 + 14,
+                  "address 3 bits / register 4 bits; layer: free-running SCK; cs and sdi free: two transactions",
+                  ["readback_written", "second_transaction", "write_sfr", "read_default"], layer={"sck": _sck_pattern})
+        _families(qs, "free_a3r4", f34, 8 * SCK_PERIOD + 10,
+                  "address 3 bits / register 4 bits: everything free within the contract; one transaction",
+                  ["read_reg", "write_reg"], required=False)
+    qs.append(Query("cosim_a2r3", f23, 0, kind="cosim", cosim_cycles=200 if quick else 3000))
     return qs
